@@ -180,7 +180,7 @@ Section Proofs.
   Variable hashf : Z -> Z -> bool -> Z.
   Variable choice : Z -> Z -> list Z.
   Variable rows : list row.
-  Variable known : list Z.
+  Variable vax : list (Z * list Z).
 
   Hypothesis hash_inj :
     forall id v b v' b', hashf id v b = hashf id v' b' -> v = v' /\ b = b'.
@@ -271,11 +271,14 @@ Section Proofs.
       rewrite Hm. now left.
   Qed.
 
-  Lemma In_feat2filter fs bf cur old force f :
-    In f (feat2filter true true fs bf cur old force) <->
-    In f (changed_keys cur old) \/ In f (removed_keys cur old) \/ In f force
-    \/ In f (late_keys fs cur bf).
-  Proof. unfold feat2filter. now rewrite nodup_In, !in_app_iff. Qed.
+  Lemma In_feat2filter kwn fs bf cur old force f :
+    In f (feat2filter true true kwn fs bf cur old force) <->
+    (In f kwn /\ (In f (changed_keys cur old) \/ In f (removed_keys cur old)))
+    \/ In f force \/ In f (late_keys fs cur bf).
+  Proof.
+    unfold feat2filter. rewrite nodup_In, !in_app_iff, filter_In, in_app_iff, memZ_In.
+    tauto.
+  Qed.
 
   Lemma rget_In rg f : rget rg f = (None, None) \/ In (f, rget rg f) rg.
   Proof.
@@ -390,17 +393,18 @@ Section Proofs.
      belongs to a feature of the dataset; it belongs to the current settings
      unless the feature is still stale; a feature without cached mask has no
      range key at all *)
-  Lemma box_update_inv feats fc bf_old cur old st force :
+  Lemma box_update_inv kwn feats fc bf_old cur old st force :
+    (forall f, In f feats -> In f kwn) ->
     BoxInv bf_old fc old st ->
     let bf0 := prune_box feats bf_old in
-    let F := feat2filter true true feats bf0 cur old force in
+    let F := feat2filter true true kwn feats bf0 cur old force in
     let bf := fold_left (box_one rows feats fc cur) F bf0 in
     let st' := filter (fun f => negb (memZ f F) && has_key f bf0) st in
     (forall f m, In (f, m) bf -> In f feats /\ (~ In f st' -> m = fmask fc cur f)) /\
     (forall f, In f feats -> has_key f bf = false ->
                forall r, spec_feat fc cur f r = true).
   Proof.
-    intros HI bf0 F bf st'.
+    intros Hkn HI bf0 F bf st'.
     assert (forall f m, In (f, m) bf0 -> In f feats) as Hk0.
     { intros f m Hin. apply filter_In in Hin. destruct Hin as [_ Hm].
       now apply memZ_In in Hm. }
@@ -412,6 +416,7 @@ Section Proofs.
       { intros Hs. apply Hst. unfold st'. apply filter_In. split; [assumption|].
         apply memZ_false in Hni. rewrite Hni. cbn.
         apply has_key_In. apply in_map_iff. now exists (f, m). }
+      pose proof (Hkn f (Hk0 f m Hin)) as Hfk.
       apply filter_In in Hin. destruct Hin as [Hin _].
       rewrite (HI _ _ Hin Hst0).
       unfold F in Hni. rewrite In_feat2filter in Hni. unfold fmask. apply map_ext.
@@ -422,7 +427,7 @@ Section Proofs.
       apply memZ_false in Hk1. unfold F in Hk1. rewrite In_feat2filter in Hk1.
       assert (has_any_key cur f = false) as Hany.
       { destruct (has_any_key cur f) eqn:E; [|reflexivity]. exfalso.
-        apply Hk1. right. right. right. unfold late_keys. apply filter_In.
+        apply Hk1. right. right. unfold late_keys. apply filter_In.
         split; [assumption|]. now rewrite Hk0', E. }
       unfold has_any_key in Hany. unfold spec_feat.
       destruct (rget cur f) as [[lo|] [hi|]]; try discriminate. reflexivity.
@@ -545,24 +550,27 @@ Section Proofs.
         now rewrite orb_assoc.
   Qed.
 
-  Lemma poly_update_spec rg ids pf0 :
+  Lemma poly_update_spec rg ids fs pf0 :
     NoDup (map fst pf0) -> PolyInv pf0 ->
-    let pf := fold_left (poly_one hashf rows rg) ids (prune_polys ids pf0) in
+    let pf := fold_left (poly_one hashf rows rg) ids
+                        (prune_polys vax ids rg fs pf0) in
     NoDup (map fst pf) /\ PolyInv pf /\
     fold_left band (map (fun e => snd (snd e)) pf) ones
     = map (spec_poly_row rg ids) rows.
   Proof.
     intros Hnd HI pf.
-    assert (NoDup (map fst (prune_polys ids pf0))) as Hnd0
+    assert (NoDup (map fst (prune_polys vax ids rg fs pf0))) as Hnd0
         by now apply NoDup_keys_filter.
-    assert (PolyInv (prune_polys ids pf0)) as HI0.
+    assert (PolyInv (prune_polys vax ids rg fs pf0)) as HI0.
     { intros id h m Hin. apply filter_In in Hin. destruct Hin as [Hin _].
       now apply HI in Hin. }
     destruct (fold_poly_spec rg ids _ Hnd0 HI0) as [Hnd1 [HI1 [Hin1 Hk1]]].
     fold pf in Hnd1, HI1, Hin1, Hk1.
     assert (forall e, In e pf -> In (fst e) ids /\ Cur rg e) as Hcur.
     { intros e Hin. apply Hin1 in Hin. destruct Hin as [H|[Hni Hin]]; [assumption|].
-      apply filter_In in Hin. destruct Hin as [_ Hm]. apply memZ_In in Hm. contradiction. }
+      apply filter_In in Hin. destruct Hin as [_ Hm].
+      apply andb_true_iff in Hm. destruct Hm as [Hm _].
+      apply memZ_In in Hm. contradiction. }
     repeat split; try assumption.
     rewrite (masks_of_keys pf (fun v => snd v)
                (fun id r => xorb (snd (reg_get rg id)) (pin r (fst (reg_get rg id))))).
@@ -684,21 +692,32 @@ Section Proofs.
     BoxInv (box_filters (flt w)) (fcol w) (old_rng (flt w)) (stale w) /\
     NoDup (map fst (poly_filters (flt w))) /\
     PolyInv (poly_filters (flt w)) /\
-    (forall f, half_set (old_rng (flt w)) f = false).
+    (* a half-set range can be on record only for a feature that was unknown
+       then: it has no box filter, and once known again it is in the dataset *)
+    (forall f, half_set (old_rng (flt w)) f = true ->
+               has_key f (box_filters (flt w)) = false /\
+               (In f (kn w) -> In f (feats w))) /\
+    (forall f, In f (feats w) -> In f (kn w)).
 
-  Notation step := (step hashf choice rows known HEAD).
-  Notation update := (update hashf choice rows known HEAD).
-  Notation run := (run hashf choice rows known HEAD).
+  Notation step := (step hashf choice rows vax HEAD).
+  Notation update := (update hashf choice rows vax HEAD).
+  Notation run := (run hashf choice rows vax HEAD).
 
-  Lemma Inv_reset c rg fs fc st e :
-    Inv {| cfg := c; reg := rg; flt := reset_fstate rows; feats := fs;
-           fcol := fc; stale := st; err := e |}.
+  (* no caches, nothing on record: after reset and after a failed update *)
+  Lemma Inv_cleared c rg a1 a2 a3 a4 mn fs fc k hv e :
+    (forall f, In f fs -> In f k) ->
+    Inv {| cfg := c; reg := rg;
+           flt := {| box_filters := []; poly_filters := [];
+                     a_all := a1; a_box := a2; a_polygon := a3; a_invalid := a4;
+                     manual := mn; old_rng := [] |};
+           feats := fs; fcol := fc; stale := []; kn := k; have := hv; err := e |}.
   Proof.
-    unfold Inv. cbn. split; [|split; [|split]].
+    intros H3. unfold Inv. cbn. split; [|split; [|split; [|split]]].
     - intros f m [].
     - constructor.
     - intros id h m [].
-    - reflexivity.
+    - intros f Hf. discriminate Hf.
+    - exact H3.
   Qed.
 
   Lemma lookup_dict_set_other {A} k (v : A) d k' :
@@ -726,129 +745,183 @@ Section Proofs.
     unfold fmask, spec_feat, colof. now rewrite lookup_dict_set_other.
   Qed.
 
-  (* the application raises iff `force` names an unknown feature or some
-     range has exactly one of its keys *)
-  Lemma raises_iff fs bf cur old force :
-    (forall f, half_set old f = false) ->
-    existsb (half_set cur) (feat2filter true true fs bf cur old force) = true
-    <-> exists f, half_set cur f = true.
+  Lemma has_key_filter {A} (p : Z * A -> bool) d f :
+    has_key f d = false -> has_key f (filter p d) = false.
   Proof.
-    intros Ho. rewrite existsb_exists. split.
-    - intros [f [_ Hf]]. now exists f.
-    - intros [f Hf]. exists f. split; [|assumption].
-      apply In_feat2filter.
-      destruct (half_set_changed cur old f (Ho f) Hf); auto.
+    intros H. destruct (has_key f (filter p d)) eqn:E; [|reflexivity].
+    apply has_key_In in E. apply in_map_iff in E. destruct E as [e [He Hin]].
+    apply filter_In in Hin. destruct Hin as [Hin _].
+    assert (has_key f d = true) as Hk.
+    { apply has_key_In. apply in_map_iff. now exists e. }
+    congruence.
   Qed.
 
-  Lemma unknown_force_iff force :
-    existsb (fun f => negb (memZ f known)) force = true
-    <-> exists f, In f force /\ ~ In f known.
+  Lemma In_addz f l g :
+    In g (if memZ f l then l else l ++ [f]) <-> In g l \/ g = f.
+  Proof.
+    destruct (memZ f l) eqn:E.
+    - apply memZ_In in E. split; [now left|]. intros [H | ->]; assumption.
+    - rewrite in_app_iff. cbn. intuition.
+  Qed.
+
+  Lemma In_delz f l g :
+    In g (filter (fun x => negb (x =? f)) l) <-> In g l /\ g <> f.
+  Proof. rewrite filter_In. split; intros [H1 H2]; split; try assumption; lia. Qed.
+
+  (* the half-set test of the pre-check fires iff a KNOWN feature has a range
+     with exactly one key (given that `force` names known features only) *)
+  Lemma raises_iff kwn fs bfo cur old force :
+    (forall f, In f fs -> In f kwn) ->
+    (forall f, In f force -> In f kwn) ->
+    (forall f, half_set old f = true ->
+               has_key f bfo = false /\ (In f kwn -> In f fs)) ->
+    existsb (half_set cur)
+            (feat2filter true true kwn fs (prune_box fs bfo) cur old force) = true
+    <-> exists f, In f kwn /\ half_set cur f = true.
+  Proof.
+    intros H3 Hforce H2. rewrite existsb_exists. split.
+    - intros [f [Hin Hf]]. exists f. split; [|assumption].
+      apply In_feat2filter in Hin. destruct Hin as [[Hk _]|[Hin|Hin]];
+        [assumption|now apply Hforce|].
+      apply filter_In in Hin. apply H3. apply Hin.
+    - intros [f [Hk Hf]]. exists f. split; [|assumption].
+      apply In_feat2filter.
+      destruct (half_set old f) eqn:Ho.
+      + destruct (H2 f Ho) as [Hnk Hfs]. right. right. unfold late_keys.
+        apply filter_In. split; [now apply Hfs|].
+        unfold prune_box. rewrite has_key_filter by assumption. cbn.
+        unfold half_set in Hf. unfold has_any_key.
+        destruct (rget cur f) as [[a|] [b|]]; try discriminate; reflexivity.
+      + left. split; [assumption|]. now apply half_set_changed.
+  Qed.
+
+  Lemma unknown_force_iff kwn force :
+    existsb (fun f => negb (memZ f kwn)) force = true
+    <-> exists f, In f force /\ ~ In f kwn.
   Proof.
     rewrite existsb_exists. split; intros [f [Hin Hf]]; exists f; split; try assumption.
     - apply negb_true_iff in Hf. now apply memZ_false.
     - apply negb_true_iff. now apply memZ_false.
   Qed.
 
+  Definition raises (w : world) (force : list Z) : Prop :=
+    (exists f, In f force /\ ~ In f (kn w))
+    \/ (exists f, In f (kn w) /\ half_set (rng (cfg w)) f = true)
+    \/ poly_bad vax (reg w) (have w) (polys (cfg w)) = true.
+
   Lemma update_correct w force :
     Inv w ->
     let w' := update w force in
     Inv w' /\
     cfg w' = cfg w /\ reg w' = reg w /\ manual (flt w') = manual (flt w) /\
-    feats w' = feats w /\ fcol w' = fcol w /\
-    (err w' = true <->
-     (exists f, In f force /\ ~ In f known)
-     \/ exists f, half_set (rng (cfg w)) f = true) /\
+    feats w' = feats w /\ fcol w' = fcol w /\ kn w' = kn w /\ have w' = have w /\
+    (err w' = true <-> raises w force) /\
     (err w' = false -> stale w' = [] ->
      a_box (flt w') = spec_box rows w /\
      a_invalid (flt w') = spec_invalid rows w /\
      a_polygon (flt w') = spec_polygon rows w /\
      a_all (flt w') = spec_all choice rows w).
   Proof.
-    intros [HBI [HND [HPI HOP]]].
-    pose proof (raises_iff (feats w) (prune_box (feats w) (box_filters (flt w)))
-                           (rng (cfg w)) _ force HOP) as Hraise.
-    pose proof (unknown_force_iff force) as Hunk.
-    assert (Inv {| cfg := cfg w; reg := reg w;
-                   flt := {| box_filters := prune_box (feats w) (box_filters (flt w));
-                             poly_filters := prune_polys (polys (cfg w))
-                                                         (poly_filters (flt w));
-                             a_all := a_all (flt w); a_box := a_box (flt w);
-                             a_polygon := a_polygon (flt w);
-                             a_invalid := invalid_arr rows (feats w) (fcol w)
-                                                      (rm_invalid (cfg w));
-                             manual := manual (flt w);
-                             old_rng := old_rng (flt w) |};
-                   feats := feats w; fcol := fcol w; stale := stale w;
-                   err := true |}) as HInvRaise.
-    { unfold Inv. cbn [flt box_filters poly_filters old_rng fcol stale].
-      split.
-      { intros f m Hin. apply filter_In in Hin. destruct Hin as [Hin _].
-        now apply HBI. }
-      split; [now apply NoDup_keys_filter|]. split; [|assumption].
-      intros id h m Hin. apply filter_In in Hin. destruct Hin as [Hin _].
-      now apply HPI in Hin. }
-    cbn zeta. unfold C03.update. cbn [precheck see_removed late_feats HEAD].
-    destruct (existsb (fun f => negb (memZ f known)) force) eqn:Eu;
-      [|destruct (existsb (half_set (rng (cfg w)))
-                (feat2filter true true (feats w)
+    intros [HBI [HND [HPI [H2 H3]]]].
+    pose proof (unknown_force_iff (kn w) force) as Hunk.
+    cbn zeta. unfold C03.update, raises.
+    cbn [precheck see_removed late_feats reset_on_raise HEAD].
+    destruct (existsb (fun f => negb (memZ f (kn w))) force) eqn:Eu.
+    { (* ValueError: unknown feature name in force *)
+      cbn [cfg reg flt err feats fcol stale kn have manual].
+      split; [now apply Inv_cleared|].
+      repeat (split; [reflexivity|]).
+      split; [|discriminate]. split; [intros _; left; now apply Hunk|reflexivity]. }
+    assert (forall f, In f force -> In f (kn w)) as Hforce.
+    { intros f Hin. destruct (in_dec Z.eq_dec f (kn w)) as [Hk|Hk]; [assumption|].
+      assert (false = true) as Hc by (apply Hunk; now exists f). discriminate Hc. }
+    pose proof (raises_iff (kn w) (feats w) (box_filters (flt w)) (rng (cfg w))
+                           (old_rng (flt w)) force H3 Hforce H2) as Hraise.
+    destruct (existsb (half_set (rng (cfg w)))
+                (feat2filter true true (kn w) (feats w)
                    (prune_box (feats w) (box_filters (flt w)))
-                   (rng (cfg w)) (old_rng (flt w)) force)) eqn:Eh];
-      cbn [cfg reg flt err feats fcol stale box_filters poly_filters old_rng
-           a_all a_box a_polygon a_invalid manual].
-    - (* ValueError: unknown feature name in force *)
-      split; [exact HInvRaise|].
-      split; [reflexivity|]. split; [reflexivity|]. split; [reflexivity|].
-      split; [reflexivity|]. split; [reflexivity|].
-      split; [|discriminate]. split; [intros _; left; now apply Hunk|reflexivity].
-    - (* ValueError: a range with one key only *)
-      split; [exact HInvRaise|].
-      split; [reflexivity|]. split; [reflexivity|]. split; [reflexivity|].
-      split; [reflexivity|]. split; [reflexivity|].
-      split; [|discriminate]. split; [intros _; right; now apply Hraise|reflexivity].
-    - destruct (box_update_inv (feats w) (fcol w) _ (rng (cfg w)) _ _ force HBI)
-        as [HBI' HBC'].
-      destruct (poly_update_spec (reg w) (polys (cfg w)) _ HND HPI)
-        as [HND' [HPI' Hpoly]].
-      assert (forall f, half_set (rng (cfg w)) f = false) as HOP'.
-      { intros f. destruct (half_set (rng (cfg w)) f) eqn:E; [|reflexivity].
-        assert (false = true) as Hc by (apply Hraise; now exists f).
-        discriminate Hc. }
-      split.
-      { unfold Inv. cbn [flt box_filters poly_filters old_rng fcol stale].
-        split; [|exact (conj HND' (conj HPI' HOP'))].
-        intros f m Hin Hst. now apply (HBI' f m Hin). }
-      split; [reflexivity|]. split; [reflexivity|]. split; [reflexivity|].
-      split; [reflexivity|]. split; [reflexivity|].
-      split.
-      { split; [discriminate|]. intros [[f [Hf1 Hf2]]|[f Hf]].
-        - assert (false = true) as Hc by (apply Hunk; now exists f). discriminate Hc.
-        - now rewrite HOP' in Hf. }
-      intros _ Hst.
-      assert (fold_left band
-                (map snd (fold_left (box_one rows (feats w) (fcol w) (rng (cfg w)))
-                   (feat2filter true true (feats w)
-                      (prune_box (feats w) (box_filters (flt w)))
-                      (rng (cfg w)) (old_rng (flt w)) force)
-                   (prune_box (feats w) (box_filters (flt w))))) ones
-              = map (spec_box_row (feats w) (fcol w) (rng (cfg w))) rows) as Hbox.
-      { apply box_array_spec; [|exact HBC'].
-        intros f m Hin. destruct (HBI' f m Hin) as [Hf Hm]. split; [assumption|].
-        apply Hm. rewrite Hst. intros []. }
-      split; [exact Hbox|]. split; [apply invalid_arr_spec|]. split; [exact Hpoly|].
-      unfold spec_all. destruct (enable (cfg w)); [|reflexivity].
-      rewrite Hbox, Hpoly, invalid_arr_spec, !band_map.
-      fold (spec_qual rows w).
-      destruct (0 <? limit (cfg w)) eqn:El; [|reflexivity].
-      rewrite limit_events_spec by lia. reflexivity.
+                   (rng (cfg w)) (old_rng (flt w)) force)) eqn:Eh.
+    { (* ValueError: a range with one key only *)
+      cbn [cfg reg flt err feats fcol stale kn have manual].
+      split; [now apply Inv_cleared|].
+      repeat (split; [reflexivity|]).
+      split; [|discriminate].
+      split; [intros _; right; left; now apply Hraise|reflexivity]. }
+    destruct (poly_bad vax (reg w) (have w) (polys (cfg w))) eqn:Ep.
+    { (* KeyError: polygon filter without instance or on a missing feature *)
+      cbn [cfg reg flt err feats fcol stale kn have manual].
+      split; [now apply Inv_cleared|].
+      repeat (split; [reflexivity|]).
+      split; [|discriminate]. split; [intros _; right; now right|reflexivity]. }
+    cbn [cfg reg flt err feats fcol stale kn have box_filters poly_filters old_rng
+         a_all a_box a_polygon a_invalid manual].
+    destruct (box_update_inv (kn w) (feats w) (fcol w) _ (rng (cfg w)) _ _ force H3 HBI)
+      as [HBI' HBC'].
+    destruct (poly_update_spec (reg w) (polys (cfg w)) (feats w) _ HND HPI)
+      as [HND' [HPI' Hpoly]].
+    assert (forall f, In f (kn w) -> half_set (rng (cfg w)) f = false) as HOP'.
+    { intros f Hk. destruct (half_set (rng (cfg w)) f) eqn:E; [|reflexivity].
+      assert (false = true) as Hc by (apply Hraise; now exists f).
+      discriminate Hc. }
+    split.
+    { unfold Inv. cbn [flt box_filters poly_filters old_rng fcol stale kn feats].
+      split; [intros f m Hin Hst; now apply (HBI' f m Hin)|].
+      split; [exact HND'|]. split; [exact HPI'|]. split; [|exact H3].
+      intros f Hf.
+      assert (~ In f (kn w)) as Hnk.
+      { intros Hk. rewrite (HOP' f Hk) in Hf. discriminate Hf. }
+      split; [|intros Hk; contradiction].
+      match goal with |- has_key f ?bf = false =>
+        destruct (has_key f bf) eqn:E; [|reflexivity] end.
+      exfalso. apply has_key_In in E. apply in_map_iff in E.
+      destruct E as [[f' m] [Hf' Hin]]. cbn in Hf'. subst f'.
+      apply HBI' in Hin. destruct Hin as [Hfs _]. apply Hnk. now apply H3. }
+    repeat (split; [reflexivity|]).
+    split.
+    { split; [discriminate|]. intros [[f [Hf1 Hf2]]|[[f [Hk Hf]]|Hp]].
+      - exfalso. apply Hf2. now apply Hforce.
+      - now rewrite (HOP' f Hk) in Hf.
+      - discriminate Hp. }
+    intros _ Hst.
+    match type of HBI' with
+    | forall f m, In (f, m) ?bf -> _ =>
+        assert (fold_left band (map snd bf) ones
+                = map (spec_box_row (feats w) (fcol w) (rng (cfg w))) rows) as Hbox
+    end.
+    { apply box_array_spec; [|exact HBC'].
+      intros f m Hin. destruct (HBI' f m Hin) as [Hf Hm]. split; [assumption|].
+      apply Hm. rewrite Hst. intros []. }
+    split; [exact Hbox|]. split; [apply invalid_arr_spec|]. split; [exact Hpoly|].
+    unfold spec_all. destruct (enable (cfg w)); [|reflexivity].
+    rewrite Hbox, Hpoly, invalid_arr_spec, !band_map.
+    fold (spec_qual rows w).
+    destruct (0 <? limit (cfg w)) eqn:El; [|reflexivity].
+    rewrite limit_events_spec by lia. reflexivity.
   Qed.
 
   Lemma step_Inv w o : Inv w -> Inv (step w o).
   Proof.
     intros H. destruct o; try exact H.
+    - (* AddFeat *)
+      destruct H as [HBI [HND [HPI [H2 H3]]]]. unfold Inv. cbn.
+      split; [exact HBI|]. split; [exact HND|]. split; [exact HPI|]. split.
+      + intros g Hg. destruct (H2 g Hg) as [Hk Hi]. split; [assumption|].
+        rewrite !In_addz. intros [Hin| ->]; [left; now apply Hi|now right].
+      + intros g. rewrite !In_addz. intros [Hin| ->]; [left; now apply H3|now right].
+    - (* DelFeat *)
+      destruct H as [HBI [HND [HPI [H2 H3]]]]. unfold Inv. cbn.
+      split; [exact HBI|]. split; [exact HND|]. split; [exact HPI|]. split.
+      + intros g Hg. destruct (H2 g Hg) as [Hk Hi]. split; [assumption|].
+        rewrite !In_delz. intros [Hin Hne]. split; [now apply Hi|assumption].
+      + intros g. rewrite !In_delz. intros [Hin Hne]. split; [now apply H3|assumption].
     - (* ReplaceTemp *)
-      destruct H as [HBI Hrest]. split; [|exact Hrest].
-      cbn. now apply BoxInv_replace.
-    - apply Inv_reset.
+      destruct H as [HBI [HND [HPI [H2 H3]]]]. unfold Inv. cbn.
+      split; [now apply BoxInv_replace|]. split; [exact HND|]. split; [exact HPI|]. split.
+      + intros g Hg. destruct (H2 g Hg) as [Hk Hi]. split; [assumption|].
+        rewrite !In_addz. intros [Hin| ->]; [left; now apply Hi|now right].
+      + intros g. rewrite !In_addz. intros [Hin| ->]; [left; now apply H3|now right].
+    - (* Reset *)
+      destruct H as [_ [_ [_ [_ H3]]]]. now apply Inv_cleared.
     - apply (update_correct w force H).
   Qed.
 
@@ -858,60 +931,65 @@ Section Proofs.
     apply IH. now apply step_Inv.
   Qed.
 
-  Lemma history rg0 fs0 ops force :
-    let w := run (init_world rows rg0 fs0) ops in
+  Lemma Inv_init rg0 fs0 kn0 :
+    (forall f, In f fs0 -> In f kn0) -> Inv (init_world rows rg0 fs0 kn0).
+  Proof. intros H. now apply Inv_cleared. Qed.
+
+  Lemma history rg0 fs0 kn0 ops force :
+    (forall f, In f fs0 -> In f kn0) ->
+    let w := run (init_world rows rg0 fs0 kn0) ops in
     let w' := update w force in
-    (err w' = true <->
-     (exists f, In f force /\ ~ In f known)
-     \/ exists f, half_set (rng (cfg w)) f = true) /\
+    (err w' = true <-> raises w force) /\
     (err w' = false -> stale w' = [] ->
      a_all (flt w') = spec_all choice rows w /\
      a_box (flt w') = spec_box rows w /\
      a_polygon (flt w') = spec_polygon rows w /\
      a_invalid (flt w') = spec_invalid rows w).
   Proof.
-    cbn zeta.
-    assert (Inv (run (init_world rows rg0 fs0) ops)) as H
-        by (apply run_Inv; apply Inv_reset).
-    destruct (update_correct _ force H) as [_ [_ [_ [_ [_ [_ [He Hok]]]]]]].
+    intros H0. cbn zeta.
+    assert (Inv (run (init_world rows rg0 fs0 kn0) ops)) as H
+        by (apply run_Inv; now apply Inv_init).
+    destruct (update_correct _ force H) as [_ [_ [_ [_ [_ [_ [_ [_ [He Hok]]]]]]]]].
     split; [exact He|]. intros Hne Hst.
     destruct (Hok Hne Hst) as [Hb [Hi [Hp Ha]]]. auto.
   Qed.
 
-  Lemma history_ok rg0 fs0 ops force :
-    let w := run (init_world rows rg0 fs0) ops in
+  Lemma history_ok rg0 fs0 kn0 ops force :
+    (forall f, In f fs0 -> In f kn0) ->
+    let w := run (init_world rows rg0 fs0 kn0) ops in
     let w' := update w force in
     err w' = false -> stale w' = [] ->
     a_all (flt w') = spec_all choice rows w /\
     a_box (flt w') = spec_box rows w /\
     a_polygon (flt w') = spec_polygon rows w /\
     a_invalid (flt w') = spec_invalid rows w.
-  Proof. exact (proj2 (history rg0 fs0 ops force)). Qed.
+  Proof. intros H0. exact (proj2 (history rg0 fs0 kn0 ops force H0)). Qed.
 
-  Lemma history_raises rg0 fs0 ops force :
-    let w := run (init_world rows rg0 fs0) ops in
+  Lemma history_raises rg0 fs0 kn0 ops force :
+    (forall f, In f fs0 -> In f kn0) ->
+    let w := run (init_world rows rg0 fs0 kn0) ops in
     err (update w force) = true <->
-    (exists f, In f force /\ ~ In f known)
-    \/ exists f, half_set (rng (cfg w)) f = true.
-  Proof. exact (proj1 (history rg0 fs0 ops force)). Qed.
+    (exists f, In f force /\ ~ In f (kn w))
+    \/ (exists f, In f (kn w) /\ half_set (rng (cfg w)) f = true)
+    \/ poly_bad vax (reg w) (have w) (polys (cfg w)) = true.
+  Proof. intros H0. exact (proj1 (history rg0 fs0 kn0 ops force H0)). Qed.
 
   (* histories that never replace the data of a feature are never stale *)
-  Fixpoint no_replace (ops : list op) : bool :=
-    match ops with
-    | [] => true
-    | ReplaceTemp _ _ :: _ => false
-    | _ :: ops' => no_replace ops'
-    end.
+  Lemma update_stale_nil w force : stale w = [] -> stale (update w force) = [].
+  Proof.
+    intros Hs. unfold C03.update.
+    cbn [precheck see_removed late_feats reset_on_raise HEAD].
+    destruct (existsb (fun f => negb (memZ f (kn w))) force); [reflexivity|].
+    destruct (existsb _ _); [reflexivity|].
+    destruct (poly_bad _ _ _ _); [reflexivity|]. cbn [stale]. now rewrite Hs.
+  Qed.
 
   Lemma step_stale_nil w o :
     stale w = [] -> (match o with ReplaceTemp _ _ => False | _ => True end) ->
     stale (step w o) = [].
   Proof.
     intros Hs Ho. destruct o; try exact Hs; try contradiction; try reflexivity.
-    (* Apply *)
-    cbn [C03.step]. unfold C03.update. cbn [precheck see_removed late_feats HEAD].
-    destruct (existsb (fun f => negb (memZ f known)) force); [exact Hs|].
-    destruct (existsb _ _); cbn [stale]; [exact Hs|]. now rewrite Hs.
+    now apply update_stale_nil.
   Qed.
 
   Lemma run_stale_nil ops : forall w,
@@ -923,9 +1001,10 @@ Section Proofs.
     - destruct o; try exact Hn. discriminate Hn.
   Qed.
 
-  Lemma history_no_replace rg0 fs0 ops force :
+  Lemma history_no_replace rg0 fs0 kn0 ops force :
+    (forall f, In f fs0 -> In f kn0) ->
     no_replace ops = true ->
-    let w := run (init_world rows rg0 fs0) ops in
+    let w := run (init_world rows rg0 fs0 kn0) ops in
     let w' := update w force in
     err w' = false ->
     a_all (flt w') = spec_all choice rows w /\
@@ -933,24 +1012,25 @@ Section Proofs.
     a_polygon (flt w') = spec_polygon rows w /\
     a_invalid (flt w') = spec_invalid rows w.
   Proof.
-    cbn zeta. intros Hn He. apply history_ok; [assumption|].
-    change (stale (step (run (init_world rows rg0 fs0) ops) (Apply force)) = []).
-    apply step_stale_nil; [|exact I]. now apply run_stale_nil.
+    cbn zeta. intros H0 Hn He. apply history_ok; [assumption|assumption|].
+    apply update_stale_nil. now apply run_stale_nil.
   Qed.
 
   (* forcing the replaced feature makes it fresh: the documented remedy *)
   Lemma forced_not_stale w force :
     (forall f, In f (stale w) -> In f force) ->
-    err (update w force) = false -> stale (update w force) = [].
+    stale (update w force) = [].
   Proof.
-    intros Hf. unfold C03.update. cbn [precheck see_removed late_feats HEAD].
-    destruct (existsb (fun f => negb (memZ f known)) force); [discriminate|].
-    destruct (existsb _ _); cbn [stale err]; [discriminate|]. intros _.
+    intros Hf. unfold C03.update.
+    cbn [precheck see_removed late_feats reset_on_raise HEAD].
+    destruct (existsb (fun f => negb (memZ f (kn w))) force); [reflexivity|].
+    destruct (existsb _ _); [reflexivity|].
+    destruct (poly_bad _ _ _ _); [reflexivity|]. cbn [stale].
     induction (stale w) as [|f st IH]; cbn; [reflexivity|].
-    assert (In f (feat2filter true true (feats w)
+    assert (In f (feat2filter true true (kn w) (feats w)
                    (prune_box (feats w) (box_filters (flt w)))
                    (rng (cfg w)) (old_rng (flt w)) force)) as Hin.
-    { apply In_feat2filter. right. right. left. apply Hf. now left. }
+    { apply In_feat2filter. right. left. apply Hf. now left. }
     apply memZ_In in Hin. rewrite Hin. cbn. apply IH.
     intros g Hg. apply Hf. now right.
   Qed.
@@ -992,24 +1072,26 @@ Section Proofs.
     intros Hc Hr Hm Hf Hd. unfold spec_all, spec_qual. now rewrite Hc, Hr, Hm, Hf, Hd.
   Qed.
 
-  Lemma history_reproducible rg1 fs1 ops1 force1 rg2 fs2 ops2 force2 :
-    let w1 := run (init_world rows rg1 fs1) ops1 in
-    let w2 := run (init_world rows rg2 fs2) ops2 in
+  Lemma history_reproducible rg1 fs1 kn1 ops1 force1 rg2 fs2 kn2 ops2 force2 :
+    (forall f, In f fs1 -> In f kn1) -> (forall f, In f fs2 -> In f kn2) ->
+    let w1 := run (init_world rows rg1 fs1 kn1) ops1 in
+    let w2 := run (init_world rows rg2 fs2 kn2) ops2 in
     cfg w1 = cfg w2 -> reg w1 = reg w2 -> manual (flt w1) = manual (flt w2) ->
     feats w1 = feats w2 -> fcol w1 = fcol w2 ->
     err (update w1 force1) = false -> err (update w2 force2) = false ->
     stale (update w1 force1) = [] -> stale (update w2 force2) = [] ->
     a_all (flt (update w1 force1)) = a_all (flt (update w2 force2)).
   Proof.
-    cbn zeta. intros Hc Hr Hm Hf Hd He1 He2 Hs1 Hs2.
-    destruct (history_ok rg1 fs1 ops1 force1 He1 Hs1) as [-> _].
-    destruct (history_ok rg2 fs2 ops2 force2 He2 Hs2) as [-> _].
+    cbn zeta. intros H1 H2 Hc Hr Hm Hf Hd He1 He2 Hs1 Hs2.
+    destruct (history_ok rg1 fs1 kn1 ops1 force1 H1 He1 Hs1) as [-> _].
+    destruct (history_ok rg2 fs2 kn2 ops2 force2 H2 He2 Hs2) as [-> _].
     now apply spec_all_settings.
   Qed.
 
-  Lemma history_limit rg0 fs0 ops force :
+  Lemma history_limit rg0 fs0 kn0 ops force :
+    (forall f, In f fs0 -> In f kn0) ->
     choice_spec ->
-    let w := run (init_world rows rg0 fs0) ops in
+    let w := run (init_world rows rg0 fs0 kn0) ops in
     let w' := update w force in
     err w' = false -> stale w' = [] ->
     enable (cfg w) = true -> 0 < limit (cfg w) ->
@@ -1018,30 +1100,34 @@ Section Proofs.
     Forall2 (fun a q => a = true -> q = true)
             (a_all (flt w')) (spec_qual rows w).
   Proof.
-    cbn zeta. intros Hc Hne Hst He Hl.
-    destruct (history_ok rg0 fs0 ops force Hne Hst) as [-> _]. now apply limit_exact.
+    cbn zeta. intros H0 Hc Hne Hst He Hl.
+    destruct (history_ok rg0 fs0 kn0 ops force H0 Hne Hst) as [-> _].
+    now apply limit_exact.
   Qed.
 
-  Lemma history_disabled rg0 fs0 ops force :
-    let w := run (init_world rows rg0 fs0) ops in
+  Lemma history_disabled rg0 fs0 kn0 ops force :
+    let w := run (init_world rows rg0 fs0 kn0) ops in
     err (update w force) = false ->
     enable (cfg w) = false -> a_all (flt (update w force)) = ones.
   Proof.
     cbn zeta. intros Hne He. unfold C03.update in *.
-    cbn [precheck see_removed late_feats HEAD] in *.
-    destruct (existsb (fun f => negb (memZ f known)) force); [discriminate|].
-    destruct (existsb _ _); cbn [err flt a_all] in *; [discriminate|].
+    cbn [precheck see_removed late_feats reset_on_raise HEAD] in *.
+    destruct (existsb (fun f => negb (memZ f (kn _))) force); [discriminate|].
+    destruct (existsb _ _); [discriminate|].
+    destruct (poly_bad _ _ _ _); cbn [err flt a_all] in *; [discriminate|].
     now rewrite He.
   Qed.
 
-  Lemma history_no_limit rg0 fs0 ops force :
-    let w := run (init_world rows rg0 fs0) ops in
+  Lemma history_no_limit rg0 fs0 kn0 ops force :
+    (forall f, In f fs0 -> In f kn0) ->
+    let w := run (init_world rows rg0 fs0 kn0) ops in
     err (update w force) = false -> stale (update w force) = [] ->
     enable (cfg w) = true -> limit (cfg w) <= 0 ->
     a_all (flt (update w force)) = spec_qual rows w.
   Proof.
-    cbn zeta. intros Hne Hst He Hl.
-    destruct (history_ok rg0 fs0 ops force Hne Hst) as [-> _]. now apply no_limit_all.
+    cbn zeta. intros H0 Hne Hst He Hl.
+    destruct (history_ok rg0 fs0 kn0 ops force H0 Hne Hst) as [-> _].
+    now apply no_limit_all.
   Qed.
 End Proofs.
 
@@ -1094,24 +1180,29 @@ Definition refute_ops : list op :=
 
 (* the code before 1ad19c0, between 1ad19c0 and 2db14c2, and before the
    late-feature repair *)
-Definition V0 : variant := {| see_removed := false; precheck := false; late_feats := false |}.
-Definition V1 : variant := {| see_removed := true; precheck := false; late_feats := false |}.
-Definition V2 : variant := {| see_removed := true; precheck := true; late_feats := false |}.
+Definition V0 : variant :=
+  {| see_removed := false; precheck := false; late_feats := false; reset_on_raise := false |}.
+Definition V1 : variant :=
+  {| see_removed := true; precheck := false; late_feats := false; reset_on_raise := false |}.
+Definition V2 : variant :=
+  {| see_removed := true; precheck := true; late_feats := false; reset_on_raise := false |}.
+Definition V3 : variant :=
+  {| see_removed := true; precheck := true; late_feats := true; reset_on_raise := false |}.
 
 Lemma unrepaired_refuted :
   forall hashf choice,
-    let w := run hashf choice refute_rows [0; 1] V0
-                 (init_world refute_rows [] [0]) refute_ops in
-    let w' := update hashf choice refute_rows [0; 1] V0 w [] in
+    let w := run hashf choice refute_rows [] V0
+                 (init_world refute_rows [] [0] [0; 1]) refute_ops in
+    let w' := update hashf choice refute_rows [] V0 w [] in
     err w' = false /\ a_all (flt w') <> spec_all choice refute_rows w.
 Proof. intros hashf choice. vm_compute. split; [reflexivity|discriminate]. Qed.
 
 (* the same history on the repaired code *)
 Example repaired_history :
   forall hashf choice,
-    let w := run hashf choice refute_rows [0; 1] HEAD
-                 (init_world refute_rows [] [0]) refute_ops in
-    a_all (flt (update hashf choice refute_rows [0; 1] HEAD w [])) = [true].
+    let w := run hashf choice refute_rows [] HEAD
+                 (init_world refute_rows [] [0] [0; 1]) refute_ops in
+    a_all (flt (update hashf choice refute_rows [] HEAD w [])) = [true].
 Proof. intros hashf choice. vm_compute. reflexivity. Qed.
 
 (* ---- non-vacuity --------------------------------------------------------- *)
@@ -1162,10 +1253,10 @@ Definition ex_ops : list op :=
    a reversed range, NaN, a tie with a bound, a polygon inverted twice, a
    manual exclusion and an active limit *)
 Example ex_history_values :
-  let w := run mk_hash first_k ex_rows [0; 1] HEAD (init_world ex_rows [(7, (0, false))] [0; 1]) ex_ops in
+  let w := run mk_hash first_k ex_rows [] HEAD (init_world ex_rows [(7, (0, false))] [0; 1] [0; 1]) ex_ops in
   (enable (cfg w), limit (cfg w), spec_qual ex_rows w,
-   err (update mk_hash first_k ex_rows [0; 1] HEAD w []),
-   a_all (flt (update mk_hash first_k ex_rows [0; 1] HEAD w [])))
+   err (update mk_hash first_k ex_rows [] HEAD w []),
+   a_all (flt (update mk_hash first_k ex_rows [] HEAD w [])))
   = (true, 2, [false; false; false; false; true; false; true; true], false,
      [false; false; false; false; true; false; true; false]).
 Proof. vm_compute. reflexivity. Qed.
@@ -1182,10 +1273,10 @@ Definition exc_ops : list op :=
 
 Example exception_safe_history :
   forall hashf choice,
-    let w1 := run hashf choice exc_rows [0; 1] HEAD (init_world exc_rows [] [0; 1])
+    let w1 := run hashf choice exc_rows [] HEAD (init_world exc_rows [] [0; 1] [0; 1])
                   (firstn 7 exc_ops) in
-    let w := run hashf choice exc_rows [0; 1] HEAD (init_world exc_rows [] [0; 1]) exc_ops in
-    let w' := update hashf choice exc_rows [0; 1] HEAD w [] in
+    let w := run hashf choice exc_rows [] HEAD (init_world exc_rows [] [0; 1] [0; 1]) exc_ops in
+    let w' := update hashf choice exc_rows [] HEAD w [] in
     err w1 = true /\ err w' = false /\ a_all (flt w') = [true; true; false; false]
     /\ a_all (flt w') = spec_all choice exc_rows w.
 Proof. intros hashf choice. vm_compute. auto. Qed.
@@ -1195,8 +1286,8 @@ Proof. intros hashf choice. vm_compute. auto. Qed.
    [3, 4]; restoring [1, 2] is not noticed *)
 Lemma sequential_raise_refuted :
   forall hashf choice,
-    let w := run hashf choice exc_rows [0; 1] V1 (init_world exc_rows [] [0; 1]) exc_ops in
-    let w' := update hashf choice exc_rows [0; 1] V1 w [] in
+    let w := run hashf choice exc_rows [] V1 (init_world exc_rows [] [0; 1] [0; 1]) exc_ops in
+    let w' := update hashf choice exc_rows [] V1 w [] in
     err w' = false /\ a_all (flt w') <> spec_all choice exc_rows w.
 Proof. intros hashf choice. vm_compute. split; [reflexivity|discriminate]. Qed.
 
@@ -1208,16 +1299,16 @@ Definition late_ops : list op :=
 
 Lemma late_feature_refuted :
   forall hashf choice,
-    let w := run hashf choice exc_rows [0; 1] V2 (init_world exc_rows [] [0]) late_ops in
-    let w' := update hashf choice exc_rows [0; 1] V2 w [] in
+    let w := run hashf choice exc_rows [] V2 (init_world exc_rows [] [0] [0; 1]) late_ops in
+    let w' := update hashf choice exc_rows [] V2 w [] in
     err w' = false /\ a_all (flt w') <> spec_all choice exc_rows w.
 Proof. intros hashf choice. vm_compute. split; [reflexivity|discriminate]. Qed.
 
 Example late_feature_history :
   forall hashf choice,
-    let w := run hashf choice exc_rows [0; 1] HEAD (init_world exc_rows [] [0])
+    let w := run hashf choice exc_rows [] HEAD (init_world exc_rows [] [0] [0; 1])
                  (late_ops ++ [Apply []; DelFeat 1; Apply []; AddFeat 1]) in
-    let w' := update hashf choice exc_rows [0; 1] HEAD w [] in
+    let w' := update hashf choice exc_rows [] HEAD w [] in
     err w' = false /\ a_all (flt w') = [false; true; true; false]
     /\ a_all (flt w') = spec_all choice exc_rows w.
 Proof. intros hashf choice. vm_compute. auto. Qed.
@@ -1235,8 +1326,8 @@ Definition repl_ops : list op :=
 (* with force=[1] the mask follows the new data; the guard [stale = []] holds *)
 Example replaced_data_forced :
   forall hashf choice,
-    let w := run hashf choice repl_rows [0; 1] HEAD (init_world repl_rows [] [0]) repl_ops in
-    let w' := update hashf choice repl_rows [0; 1] HEAD w [1] in
+    let w := run hashf choice repl_rows [] HEAD (init_world repl_rows [] [0] [0; 1]) repl_ops in
+    let w' := update hashf choice repl_rows [] HEAD w [1] in
     err w' = false /\ stale w' = [] /\ a_all (flt w') = [true; true; false; false]
     /\ a_all (flt w') = spec_all choice repl_rows w.
 Proof. intros hashf choice. vm_compute. auto. Qed.
@@ -1246,22 +1337,71 @@ Proof. intros hashf choice. vm_compute. auto. Qed.
    Replacing feature data is not an operation of the property's quantifier. *)
 Lemma replaced_data_unforced_stale :
   forall hashf choice,
-    let w := run hashf choice repl_rows [0; 1] HEAD (init_world repl_rows [] [0]) repl_ops in
-    let w' := update hashf choice repl_rows [0; 1] HEAD w [] in
+    let w := run hashf choice repl_rows [] HEAD (init_world repl_rows [] [0] [0; 1]) repl_ops in
+    let w' := update hashf choice repl_rows [] HEAD w [] in
     err w' = false /\ stale w' = [1] /\ a_all (flt w') <> spec_all choice repl_rows w.
 Proof. intros hashf choice. vm_compute. repeat split; try reflexivity. discriminate. Qed.
 
 (* an unknown feature name in `force` raises *)
 Example unknown_force_raises :
   forall hashf choice,
-    err (update hashf choice repl_rows [0; 1] HEAD (init_world repl_rows [] [0]) [5]) = true.
+    err (update hashf choice repl_rows [] HEAD (init_world repl_rows [] [0] [0; 1]) [5]) = true.
 Proof. intros hashf choice. vm_compute. reflexivity. Qed.
 
 (* a limit beyond any pool size selects all qualifying events *)
 Example huge_limit :
   forall hashf choice,
-    let w := run hashf choice repl_rows [0; 1] HEAD (init_world repl_rows [] [0])
+    let w := run hashf choice repl_rows [] HEAD (init_world repl_rows [] [0] [0; 1])
                  [SetMin 0 (Fin 8); SetMax 0 (Fin 16); SetLimit 4294967296] in
-    let w' := update hashf choice repl_rows [0; 1] HEAD w [] in
+    let w' := update hashf choice repl_rows [] HEAD w [] in
     err w' = false /\ a_all (flt w') = [true; true; false; false].
+Proof. intros hashf choice. vm_compute. auto. Qed.
+
+(* the code before fixes_proposed/C03-failed-update-resets-caches.diff: a
+   polygon filter id without instance (777) makes the application raise
+   KeyError after the box filter of feature 0 was recomputed for [3, 4];
+   the id is removed and [1, 2] restored: the [3, 4] mask stays *)
+Definition keyerr_ops : list op :=
+  [ SetMin 0 (Fin 8); SetMax 0 (Fin 16); Apply [];
+    SetMin 0 (Fin 24); SetMax 0 (Fin 32); AddPoly 777; Apply [];
+    RmPoly 777; SetMin 0 (Fin 8); SetMax 0 (Fin 16) ].
+
+Lemma polygon_keyerror_refuted :
+  forall hashf choice,
+    let w1 := run hashf choice exc_rows [] V3 (init_world exc_rows [] [0; 1] [0; 1])
+                  (firstn 7 keyerr_ops) in
+    let w := run hashf choice exc_rows [] V3 (init_world exc_rows [] [0; 1] [0; 1])
+                 keyerr_ops in
+    let w' := update hashf choice exc_rows [] V3 w [] in
+    err w1 = true /\ err w' = false /\ a_all (flt w') <> spec_all choice exc_rows w.
+Proof. intros hashf choice. vm_compute. repeat split; try reflexivity. discriminate. Qed.
+
+Example polygon_keyerror_history :
+  forall hashf choice,
+    let w1 := run hashf choice exc_rows [] HEAD (init_world exc_rows [] [0; 1] [0; 1])
+                  (firstn 7 keyerr_ops) in
+    let w := run hashf choice exc_rows [] HEAD (init_world exc_rows [] [0; 1] [0; 1])
+                 keyerr_ops in
+    let w' := update hashf choice exc_rows [] HEAD w [] in
+    err w1 = true /\ err w' = false /\ a_all (flt w') = [true; true; false; false]
+    /\ a_all (flt w') = spec_all choice exc_rows w.
+Proof. intros hashf choice. vm_compute. auto. Qed.
+
+(* a polygon on a feature the dataset does not have (vertex set 0 uses
+   features 0 and 5) raises; a half-set range on a deregistered temporary
+   feature does not *)
+Example polygon_missing_axis_raises :
+  forall hashf choice,
+    let w := run hashf choice exc_rows [(0, [0; 5])] HEAD
+                 (init_world exc_rows [(3, (0, false))] [0; 1] [0; 1; 5]) [AddPoly 3] in
+    err (update hashf choice exc_rows [(0, [0; 5])] HEAD w []) = true.
+Proof. intros hashf choice. vm_compute. reflexivity. Qed.
+
+Example half_set_on_deregistered_does_not_raise :
+  forall hashf choice,
+    let w := run hashf choice exc_rows [] HEAD (init_world exc_rows [] [0] [0; 1])
+                 [AddFeat 1; SetMin 1 (Fin 2); SetMax 1 (Fin 4); Apply []; DelFeat 1;
+                  DelMin 1] in
+    let w' := update hashf choice exc_rows [] HEAD w [] in
+    err w' = false /\ a_all (flt w') = spec_all choice exc_rows w.
 Proof. intros hashf choice. vm_compute. auto. Qed.
